@@ -58,6 +58,137 @@ fn uses_rejected(c: &Value, pg: &Value, acc: &[bool]) -> bool {
     pg["resources"].as_array().map(|a| a.iter().zip(acc.iter()).any(|(r, ok)| &r["name"] == nm && !ok)).unwrap_or(false)
 }
 
+
+fn rect_of(a: &Value) -> oxidize_pdf::geometry::Rectangle {
+    use oxidize_pdf::geometry::{Point, Rectangle};
+    let r: Vec<f64> = a["rect"].as_array().map(|v| v.iter().map(|x| x.as_f64().unwrap()).collect()).unwrap_or_default();
+    if r.len() == 4 {
+        Rectangle::new(Point::new(r[0], r[1]), Point::new(r[2], r[3]))
+    } else {
+        Rectangle::new(Point::new(0.0, 0.0), Point::new(0.0, 0.0))
+    }
+}
+
+/// One authored annotation (interactive documents, MCDocX): every kind goes through the typed builder the API offers.
+fn annot_of(a: &Value) -> Result<oxidize_pdf::annotations::Annotation, String> {
+    use oxidize_pdf::annotations::*;
+    use oxidize_pdf::geometry::Point;
+    let rect = rect_of(a);
+    let text = cps_text(&a["text"]);
+    let has_text = !a["text"].is_null();
+    Ok(match a["k"].as_str().unwrap() {
+        "text" => {
+            let x = Annotation::new(AnnotationType::Text, rect);
+            if has_text { x.with_contents(text) } else { x }
+        }
+        "note" => {
+            let x = TextAnnotation::new(Point::new(rect.lower_left.x, rect.lower_left.y));
+            (if has_text { x.with_contents(text) } else { x }).to_annotation()
+        }
+        "uri" => LinkAnnotation::to_uri(rect, cps_text(&a["uri"])).to_annotation(),
+        k @ ("highlight" | "underline" | "strikeout" | "squiggly") => {
+            let x = match k {
+                "highlight" => MarkupAnnotation::highlight(rect),
+                "underline" => MarkupAnnotation::underline(rect),
+                "strikeout" => MarkupAnnotation::strikeout(rect),
+                _ => MarkupAnnotation::squiggly(rect),
+            };
+            let x = if has_text { x.with_contents(text) } else { x };
+            let x = if a["author"].is_null() { x } else { x.with_author(cps_text(&a["author"])) };
+            x.to_annotation()
+        }
+        "square" => {
+            let x = SquareAnnotation::new(rect);
+            x.to_annotation()
+        }
+        "circle" => {
+            let x = CircleAnnotation::new(rect);
+            x.to_annotation()
+        }
+        "line" => LineAnnotation::new(Point::new(rect.lower_left.x, rect.lower_left.y), Point::new(rect.upper_right.x, rect.upper_right.y)).to_annotation(),
+        "freetext" => FreeTextAnnotation::new(rect, text).to_annotation(),
+        "stamp" => StampAnnotation::new(rect, if a["name"].is_null() { StampName::Approved } else { StampName::Custom(cps_text(&a["name"])) }).to_annotation(),
+        "ink" => InkAnnotation::new()
+            .add_stroke(vec![Point::new(rect.lower_left.x, rect.lower_left.y), Point::new(rect.upper_right.x, rect.lower_left.y), Point::new(rect.upper_right.x, rect.upper_right.y)])
+            .to_annotation(),
+        "polygon" => PolygonAnnotation::new(vec![Point::new(rect.lower_left.x, rect.lower_left.y), Point::new(rect.upper_right.x, rect.lower_left.y), Point::new(rect.upper_right.x, rect.upper_right.y)])
+            .to_annotation()
+            .map_err(|e| e.to_string())?,
+        other => tool_error(&format!("annotation kind {other}")),
+    })
+}
+
+/// The form fields of an interactive document: (FormManager, per field its reference)
+fn fields_of(p: &Value) -> Result<(oxidize_pdf::forms::FormManager, Vec<oxidize_pdf::objects::ObjectReference>), String> {
+    use oxidize_pdf::forms::*;
+    let mut fm = FormManager::new();
+    let mut refs = Vec::new();
+    for f in p["fields"].as_array().map(|a| a.as_slice()).unwrap_or(&[]) {
+        let name = cps_text(&f["name"]);
+        let value = cps_text(&f["value"]);
+        let has_value = !f["value"].is_null();
+        // the widgets the field manager keeps are the ones placed on pages (same rectangles)
+        let widgets: Vec<Widget> = p["pages"].as_array().unwrap().iter()
+            .flat_map(|pg| pg["annots"].as_array().map(|a| a.to_vec()).unwrap_or_default())
+            .filter(|a| a["k"] == "widget" && a["field"] == f["id"])
+            .map(|a| Widget::new(rect_of(&a)))
+            .collect();
+        let w0 = widgets.first().cloned().unwrap_or_else(|| Widget::new(rect_of(f)));
+        let r = match f["k"].as_str().unwrap() {
+            "text" => {
+                let t = TextField::new(name);
+                fm.add_text_field(if has_value { t.with_value(value) } else { t }, w0, None)
+            }
+            "check" => {
+                let c = CheckBox::new(name);
+                let c = if has_value { c.with_export_value(value) } else { c };
+                fm.add_checkbox(if f["on"].as_bool().unwrap_or(false) { c.checked() } else { c }, w0, None)
+            }
+            "radio" => {
+                let mut rb = RadioButton::new(name);
+                for o in f["options"].as_array().unwrap() {
+                    rb = rb.add_option(cps_text(o), cps_text(o));
+                }
+                if let Some(i) = f["selected"].as_u64() {
+                    rb = rb.with_selected(i as usize);
+                }
+                fm.add_radio_buttons(rb, widgets.clone(), None)
+            }
+            "combo" => {
+                let mut cb = ComboBox::new(name);
+                for o in f["options"].as_array().unwrap() {
+                    cb = cb.add_option(cps_text(o), cps_text(o));
+                }
+                fm.add_combo_box(if has_value { cb.with_value(value) } else { cb }, w0, None)
+            }
+            "list" => {
+                let mut lb = ListBox::new(name);
+                for o in f["options"].as_array().unwrap() {
+                    lb = lb.add_option(cps_text(o), cps_text(o));
+                }
+                fm.add_list_box(lb, w0, None)
+            }
+            "push" => fm.add_push_button(PushButton::new(name), w0, None),
+            other => tool_error(&format!("field kind {other}")),
+        };
+        refs.push(r.map_err(|e| e.to_string())?);
+    }
+    Ok((fm, refs))
+}
+
+/// Annotations and widgets of one page, in the order the program lists them
+fn add_annots(page: &mut Page, pg: &Value, p: &Value, refs: &[oxidize_pdf::objects::ObjectReference]) -> Result<(), String> {
+    for a in pg["annots"].as_array().map(|a| a.as_slice()).unwrap_or(&[]) {
+        if a["k"] == "widget" {
+            let idx = p["fields"].as_array().unwrap().iter().position(|f| f["id"] == a["field"]).ok_or("widget of an unknown field")?;
+            page.add_form_widget_with_ref(oxidize_pdf::forms::Widget::new(rect_of(a)), refs[idx]).map_err(|e| e.to_string())?;
+        } else {
+            page.add_annotation(annot_of(a)?);
+        }
+    }
+    Ok(())
+}
+
 pub fn build_doc_ex(p: &Value) -> Result<(Document, Vec<Vec<bool>>), String> {
     let mut accepted: Vec<Vec<bool>> = Vec::new();
     let mut doc = Document::new();
@@ -72,6 +203,7 @@ pub fn build_doc_ex(p: &Value) -> Result<(Document, Vec<Vec<bool>>), String> {
     let fixed = chrono_fixed();
     doc.set_creation_date(fixed);
     doc.set_modification_date(fixed);
+    let (fm, frefs) = fields_of(p)?;
     for pg in p["pages"].as_array().unwrap() {
         let mut page = Page::new(pg["w"].as_f64().unwrap(), pg["h"].as_f64().unwrap());
         let rot = pg["rot"].as_i64().unwrap_or(0);
@@ -93,8 +225,12 @@ pub fn build_doc_ex(p: &Value) -> Result<(Document, Vec<Vec<bool>>), String> {
                 },
             }
         }
+        add_annots(&mut page, pg, p, &frefs)?;
         accepted.push(acc);
         doc.add_page(page);
+    }
+    if !frefs.is_empty() {
+        doc.set_form_manager(fm);
     }
     Ok((doc, accepted))
 }
@@ -186,7 +322,11 @@ pub fn library_view(bytes: &[u8], numbers: Vec<u32>) -> Value {
                         }
                         Err(e) => (json!({"parsed": {"ok": false, "ops": [], "err": "no content"}, "strict": false, "bytes": []}), e.to_string()),
                     };
-                    pages.push(json!({"ok": true, "mediaBox": micro(&pg.media_box), "cropBox": pg.crop_box.map(|b| micro(&b)).unwrap_or_default(), "rotate": pg.rotation, "content": ops, "err": perr}));
+                    let annots: Vec<Value> = match doc.get_page_annotations(i) {
+                        Ok(v) => v.iter().map(pdict_json).collect(),
+                        Err(e) => vec![json!({"t": "error", "msg": e.to_string()})],
+                    };
+                    pages.push(json!({"ok": true, "annots": annots, "mediaBox": micro(&pg.media_box), "cropBox": pg.crop_box.map(|b| micro(&b)).unwrap_or_default(), "rotate": pg.rotation, "content": ops, "err": perr}));
                 }
                 Err(e) => pages.push(json!({"ok": false, "err": e.to_string()})),
             }
@@ -275,6 +415,7 @@ fn run(a: &Args) {
         out.line(&json!({"ev": "chk_lib"}));
         out.line(&json!({"ev": "chk_pages"}));
         out.line(&json!({"ev": "chk_resources"}));
+        out.line(&json!({"ev": "chk_interactive"}));
     }
     out.flush();
 }
